@@ -197,27 +197,37 @@ def coq_msg_cases(cases: list, cur: dict, play: dict) -> list:
     return shards
 
 
-def run_msg_shards(run: Run, name: str, shards: list, cases: list, label: str):
+def eval_groups(run: Run, name: str, groups: list) -> int:
+    """groups: [(label, shards, nvals, on_bad(which:int, index:int) -> str)]; all shards of all groups are
+    evaluated in one parallel batch.  Returns the number of disagreeing cases."""
+    texts, owner = [], []
+    for g, (label, shards, nvals, on_bad) in enumerate(groups):
+        for t in shards:
+            texts.append(t)
+            owner.append(g)
     try:
-        outs = coq_eval_many(name, shards)
+        outs = coq_eval_many(name, texts)
     except BrokenTie as e:
         run.add_broken(e.obligation, e.detail)
         return 0
     nbad = 0
-    for out in outs:
+    shown = {}
+    for g, out in zip(owner, outs):
+        label, _, nvals, on_bad = groups[g]
         vals = parse_eval(out)
-        if len(vals) != 3:
+        if len(vals) != nvals:
             run.add_broken(f'correspondence:C01 {label}', f'unexpected coqc output: {out[:300]}')
             continue
-        for which, v in zip(('enc_msg vs serialize()', 'dispatch/dec_msg vs family deserialize', 'generated value outside the model domain (canonicalb)'), vals):
+        for which, v in enumerate(vals):
             for i in parse_coq_list(v):
                 nbad += 1
-                r = cases[int(i)]
-                if nbad <= 3:
-                    run.add_broken(f'correspondence:C01 {label}: {which}',
-                                   json.dumps({'class': r['class'], 'vals': r['vals'], 'impl_bytes': r['bytes'].hex() if r['bytes'] else None,
-                                               'impl_decoded': r.get('dec')}, default=str)[:1500])
+                shown[g] = shown.get(g, 0) + 1
+                if shown[g] <= 2:
+                    run.add_broken(f'correspondence:C01 {label}', on_bad(which, int(i))[:1500])
     return nbad
+
+
+MSG_WHICH = ('enc_msg vs serialize()', 'dispatch/dec_msg vs family deserialize', 'generated value outside the model domain (canonicalb)')
 
 
 # ----------------------------------------------------------------------------------------
@@ -372,25 +382,6 @@ def coq_strings(cases) -> list:
     return shards
 
 
-def run_simple_shards(run: Run, name: str, shards: list, label: str, describe):
-    try:
-        outs = coq_eval_many(name, shards)
-    except BrokenTie as e:
-        run.add_broken(e.obligation, e.detail)
-        return 0
-    nbad = 0
-    for out in outs:
-        vals = parse_eval(out)
-        if len(vals) != 1:
-            run.add_broken(f'correspondence:C01 {label}', f'unexpected coqc output: {out[:300]}')
-            continue
-        for i in parse_coq_list(vals[0]):
-            nbad += 1
-            if nbad <= 2:
-                run.add_broken(f'correspondence:C01 {label}', describe(int(i)))
-    return nbad
-
-
 # ----------------------------------------------------------------------------------------
 def vectors_check(run: Run, play: dict, cur, pin: dict):
     """The maintainers' byte vectors: (a) the pinned layout reproduces them (anchor of the pin),
@@ -530,14 +521,19 @@ def run(run: Run):
 
     # --- L2: model vs implementation
     if model_ok and cur:
-        nb = run_msg_shards(run, 'c01m', coq_msg_cases(cases, cur, play), cases, 'messages')
-        nb += run_simple_shards(run, 'c01v', coq_vectors(vec, cur, play), 'maintainer vectors vs model',
-                                lambda i: json.dumps(vec[i])[:800])
-        nb += run_simple_shards(run, 'c01o', coq_obf(okeys, oexplicit, garb), 'obfuscation.encode/decode vs obf_encode/obf_decode',
-                                lambda i: (f'key={okeys[i // 1000][0].hex()} payload length {i % 1000} (payload = first bytes of {okeys[i // 1000][1][:16].hex()}...)'
-                                           if i < 900000 else f'explicit/garbage case {i - 900000}'))
-        nb += run_simple_shards(run, 'c01s', coq_strings(scases), 'string/bytearr.deserialize vs dec TStr/TBytes',
-                                lambda i: f'frame={scases[i][0].hex()} impl={scases[i][1]} / {scases[i][2]}')
+        groups = [
+            ('messages', coq_msg_cases(cases, cur, play), 3,
+             lambda w, i: MSG_WHICH[w] + ': ' + json.dumps({'class': cases[i]['class'], 'vals': cases[i]['vals'],
+                                                             'impl_bytes': cases[i]['bytes'].hex() if cases[i]['bytes'] else None,
+                                                             'impl_decoded': cases[i].get('dec')}, default=str)),
+            ('maintainer vectors vs model', coq_vectors(vec, cur, play), 1, lambda w, i: json.dumps(vec[i])),
+            ('obfuscation.encode/decode vs obf_encode/obf_decode', coq_obf(okeys, oexplicit, garb), 1,
+             lambda w, i: (f'key={okeys[i // 1000][0].hex()} payload length {i % 1000} (payload = first bytes of {okeys[i // 1000][1][:16].hex()}...)'
+                           if i < 900000 else f'explicit/garbage case {i - 900000}')),
+            ('string/bytearr.deserialize vs dec TStr/TBytes', coq_strings(scases), 1,
+             lambda w, i: f'frame={scases[i][0].hex()} impl={scases[i][1]} / {scases[i][2]}'),
+        ]
+        nb = eval_groups(run, 'c01', groups)
         run.cov['traces_validated_against_impl'] = len(cases) + len(vec) + 601 * len(okeys) + len(garb) + len(scases) - nb
     elif not run.broken:
         run.add_broken('correspondence:C01', 'model not built')
